@@ -39,7 +39,7 @@ from spyne.util.six.moves.urllib.parse import unquote, quote
 
 from spyne.application import get_fault_string_from_exception
 from spyne.auxproc import process_contexts
-from spyne.error import RequestTooLongError
+from spyne.error import RequestTooLongError, ValidationError
 from spyne.protocol.http import HttpRpc
 from spyne.server.http import HttpBase, HttpMethodContext, HttpTransportContext
 from spyne.util.odict import odict
@@ -585,7 +585,11 @@ class WsgiApplication(HttpBase):
             if len(length) == 0:
                 length = 0
             else:
-                length = int(length)
+                try:
+                    length = int(length)
+                except ValueError:
+                    raise ValidationError(length,
+                                       "%r is not a valid Content-Length value")
 
         else:
             # The client did not say how long the body is: it ends where the
